@@ -1206,3 +1206,155 @@ func inspectRegion(fds []*ast.FuncDecl, f func(ast.Node) bool) {
 		ast.Inspect(fd.Body, f)
 	}
 }
+
+// ---- C16/inputs: reading several inputs as one stream ends only after the last of them.
+//
+// The command concatenates its input files through a reader whose Read moves on to the next file when one is
+// exhausted. bufio.Scanner stops at the first io.EOF, so Read may report io.EOF only when no reader is left: at every
+// return where the error may be io.EOF (it is not known nil and not known to differ from io.EOF), the list of
+// remaining readers is known to be empty. An empty file in the middle must not end the stream.
+type inputsClient struct {
+	BaseClient
+	fn      string
+	readers string // canonical key of the readers field
+	results []types.Object
+	seen    int
+}
+
+func (c *inputsClient) Return(e *Engine, st *State, ret *ast.ReturnStmt) {
+	if !e.Reporting() || e.Lit != nil || len(e.Frames()) > 0 {
+		return
+	}
+	var errX ast.Expr
+	var errKey string
+	switch {
+	case ret != nil && len(ret.Results) == 2:
+		errX = ret.Results[1]
+	case ret != nil && len(ret.Results) == 1:
+		// return inner.Read(p): the error of another reader, which may well be io.EOF
+		errX = nil
+	case len(c.results) == 2:
+		errKey = e.objKey(c.results[1])
+	}
+	c.seen++
+	ord := 0
+	if ret != nil {
+		ord = returnOrdinal(e.Func, ret)
+	}
+	key := fmt.Sprintf("%s return #%d reports the end of input only after the last reader", c.fn, ord)
+	mayEOF := true
+	if errX != nil {
+		if isNilIdent(e.Info, errX) || e.IsNil(st, errX) {
+			mayEOF = false
+		}
+		if k := e.CanonSt(st, errX); k.OK {
+			errKey = k.Key
+		}
+	}
+	if errKey != "" {
+		if f := st.Get(errKey); f != nil && f.Nil == 1 {
+			mayEOF = false
+		}
+		for _, k := range st.Keys() {
+			if strings.Contains(k, errKey) && strings.Contains(k, "io.EOF") && strings.Contains(k, " == ") {
+				if f := st.Get(k); f != nil && f.HasEq && f.Eq == "false" {
+					mayEOF = false
+				}
+			}
+		}
+	}
+	if !mayEOF {
+		e.Site("C16/inputs", key, retNode(e, ret), true, "the error returned here is known not to be io.EOF")
+		return
+	}
+	empty := false
+	if f := st.Get("len(" + c.readers + ")"); f != nil && (f.HasEq && f.Eq == "0" || f.Hi != nil && *f.Hi <= 0) {
+		empty = true
+	}
+	for _, k := range st.Keys() {
+		if k == "(0 < len("+c.readers+"))" {
+			if f := st.Get(k); f != nil && f.HasEq && f.Eq == "false" {
+				empty = true
+			}
+		}
+		if k == "(len("+c.readers+") <= 0)" || k == "(0 == len("+c.readers+"))" {
+			if f := st.Get(k); f != nil && f.HasEq && f.Eq == "true" {
+				empty = true
+			}
+		}
+	}
+	e.Site("C16/inputs", key, retNode(e, ret), empty, "where io.EOF may be returned no reader is left")
+	if !empty {
+		e.Site("C16/inputs", key, retNode(e, ret), false, "Read can return io.EOF while readers remain (for instance the (0, io.EOF) of an empty file in the middle of the list): the scanner takes it for the end of all input and every later file is dropped silently with exit status 0")
+	}
+}
+
+func retNode(e *Engine, ret *ast.ReturnStmt) ast.Node {
+	if ret != nil {
+		return ret
+	}
+	return e.Func
+}
+
+func ruleC16Inputs(p *Program, r *Run) {
+	pkg := p.Main
+	info := pkg.TypesInfo
+	// the Read method of a type of the command that holds a list of readers
+	for _, fd := range AllFuncs(pkg) {
+		if fd.Name.Name != "Read" || fd.Recv == nil || len(fd.Recv.List) != 1 || len(fd.Recv.List[0].Names) != 1 {
+			continue
+		}
+		rt := info.TypeOf(fd.Recv.List[0].Type)
+		st := StructOf(rt)
+		if st == nil {
+			continue
+		}
+		var fld *types.Var
+		for i := 0; i < st.NumFields(); i++ {
+			if sl, ok := st.Field(i).Type().Underlying().(*types.Slice); ok {
+				if types.Implements(sl.Elem(), p.ioReader()) {
+					fld = st.Field(i)
+				}
+			}
+		}
+		if fld == nil {
+			continue
+		}
+		fn := FuncName(pkg, fd)
+		r.Saw(fn)
+		c := &inputsClient{fn: fn}
+		if fd.Type.Results != nil {
+			for _, f := range fd.Type.Results.List {
+				for _, nm := range f.Names {
+					c.results = append(c.results, info.Defs[nm])
+				}
+			}
+		}
+		e := NewEngine(p, pkg, fd, c)
+		c.readers = e.objKey(info.Defs[fd.Recv.List[0].Names[0]]) + "." + fldName(fld)
+		e.Run(nil)
+		for _, m := range e.Errs {
+			r.Fail("C16/inputs", fn+" engine", "-", m)
+		}
+		e.FlushSites(r)
+		if c.seen == 0 {
+			r.Fail("C16/inputs", fn+" returns", p.Pos(fd.Pos()), "no return of the concatenating Read is reached on a feasible path")
+		}
+	}
+}
+
+// ioReader: the io.Reader interface type.
+func (p *Program) ioReader() *types.Interface {
+	for _, pkg := range p.All {
+		for _, imp := range pkg.Types.Imports() {
+			if imp.Path() == "io" {
+				if tn, ok := imp.Scope().Lookup("Reader").(*types.TypeName); ok {
+					if it, ok := tn.Type().Underlying().(*types.Interface); ok {
+						return it
+					}
+				}
+			}
+		}
+	}
+	return types.NewInterfaceType(nil, nil)
+}
